@@ -183,7 +183,8 @@ class Primitive(Any, metaclass=Singleton):  # pylint: disable=abstract-method
     @classmethod
     @typing.final
     def cast(cls, value: 'dsl.Native') -> 'dsl.Native':
-        if isinstance(value, cls.__type__):  # pylint: disable=isinstance-second-argument-not-valid-type
+        # pylint: disable-next=isinstance-second-argument-not-valid-type
+        if isinstance(value, cls.__type__) and reflect(value) == cls():
             return value
         return super().cast(value)
 
